@@ -1,13 +1,13 @@
 #!/bin/sh
-# tools/mutwt.sh <patch.diff> <ID> [tier] : like mutcheck.sh but on the scratch worktree /tmp/repo_mut (never touches /repo);
+# tools/mutwt.sh <patch.diff> <ID> [tier] : like mutcheck.sh but on the scratch worktree $W (never touches /repo);
 # evidence goes to a scratch directory so that /verif/evidence keeps describing /repo
-P=$1; ID=$2; T=${3:-quick}
-[ -d /tmp/repo_mut ] || git -C /repo worktree add --detach /tmp/repo_mut >/dev/null
-git -C /tmp/repo_mut checkout -q --detach "$(git -C /repo rev-parse HEAD)" && git -C /tmp/repo_mut checkout -- .
-git -C /tmp/repo_mut apply "$(realpath "$P")" || { echo "patch does not apply"; exit 8; }
-cd /verif && VERIF_REPO=/tmp/repo_mut VERIF_REPO_SRC=/tmp/repo_mut/src VERIF_EVIDENCE_DIR=/tmp/mutwt_evidence ./check $ID --tier $T --no-twins > /tmp/mutwt_$ID.log 2>&1; rc=$?
-git -C /tmp/repo_mut checkout -- .
-grep -E "^VIOLATION|^INCONCLUSIVE|^KNOWN|^C[0-9]+ \[" /tmp/mutwt_$ID.log | cut -c1-300 | head -8
-grep -o "case=[^ ]* obligation=[^ ]*" /tmp/mutwt_$ID.log | sort | uniq -c | sort -rn | head -4
+P=$1; ID=$2; T=${3:-quick}; W=${MUTWT:-/tmp/repo_mut}
+[ -d $W ] || git -C /repo worktree add --detach $W >/dev/null
+git -C $W checkout -q --detach "$(git -C /repo rev-parse HEAD)" && git -C $W checkout -- .
+git -C $W apply "$(realpath "$P")" || { echo "patch does not apply"; exit 8; }
+cd /verif && VERIF_REPO=$W VERIF_REPO_SRC=$W/src VERIF_EVIDENCE_DIR=/tmp/mutwt_evidence_$(basename $W) ./check $ID --tier $T --no-twins > /tmp/mutwt_$(basename $W)_$ID.log 2>&1; rc=$?
+git -C $W checkout -- .
+grep -E "^VIOLATION|^INCONCLUSIVE|^KNOWN|^C[0-9]+ \[" /tmp/mutwt_$(basename $W)_$ID.log | cut -c1-300 | head -8
+grep -o "case=[^ ]* obligation=[^ ]*" /tmp/mutwt_$(basename $W)_$ID.log | sort | uniq -c | sort -rn | head -4
 echo "exit=$rc"
 exit $rc
